@@ -40,27 +40,41 @@ Definition away (band x : Q) : bool := negb (Qle_bool (Qabs x) band).
 Definition robust_pts exact band pl (ps : list (vec3 Q)) : bool :=
   exact || forallb (fun p => away band (plane_sd QOps pl p)) ps.
 
+(* rows of a stack are independent: a row whose decision is not robust is skipped, the other rows are still judged
+   (the structure - one observed row per input row - is checked in any case) *)
+Fixpoint all2m {A B} (f : A -> B -> bool) (mask : list bool) (l : list A) (l' : list B) : bool :=
+  match mask, l, l' with
+  | [], [], [] => true
+  | m :: ms, a :: r, b :: r' => (negb m || f a b) && all2m f ms r r'
+  | _, _, _ => false
+  end.
+
 Definition check_case (c : case) : bool :=
   match c with
   | CSegs exact band pl a b single st_rows st_valid isp_single isp_stack =>
-      negb (robust_pts exact band pl (a ++ b)) ||
-      (let segv := map2 (vsub QOps) b a in
-       let k := length a in
-       let rows_opt := rows_opt (mag (pref pl :: a ++ b)) in
-       let rows_nan := rows_nan (mag (pref pl :: a ++ b)) in
-       rows_opt (map2 (line_segment_xsection QOps pl) a b) single &&
-       rows_nan (fst (line_segment_xsections QOps pl a b)) st_rows &&
-       bool_list_eqb (snd (line_segment_xsections QOps pl a b)) st_valid &&
-       rows_nan (map2 (fun s v => intersect_segment_with_plane QOps s v (pref pl) (pnormal pl)) a segv) isp_single &&
-       rows_nan (intersect_segments_with_planes QOps a segv (repeat (pref pl) k) (repeat (pnormal pl) k)) isp_stack)
+      let mask := map2 (fun x y => robust_pts exact band pl [x; y]) a b in
+      let segv := map2 (vsub QOps) b a in
+      let k := length a in
+      let mg := mag (pref pl :: a ++ b) in
+      Nat.eqb (length a) (length b) &&
+      all2m (row_opt mg) mask (map2 (line_segment_xsection QOps pl) a b) single &&
+      all2m (row_nan mg) mask (fst (line_segment_xsections QOps pl a b)) st_rows &&
+      all2m Bool.eqb mask (snd (line_segment_xsections QOps pl a b)) st_valid &&
+      all2m (row_nan mg) mask
+            (map2 (fun s v => intersect_segment_with_plane QOps s v (pref pl) (pnormal pl)) a segv) isp_single &&
+      all2m (row_nan mg) mask
+            (intersect_segments_with_planes QOps a segv (repeat (pref pl) k) (repeat (pnormal pl) k)) isp_stack
   | CLines exact band pl pts rays single st_rows st_valid =>
       (* the rounding error of ray.normal is relative to the length of the ray: band 1e-6 |ray| *)
-      negb (exact || forallb (fun r => away ((1 # 1000000) * vmag r) (xs_denom QOps pl r)) rays) ||
-      (let m := mag (pref pl :: pts ++ rays) in
-       rows_opt m (map2 (line_xsection QOps pl) pts rays) single &&
-       rows_nan m (fst (line_xsections QOps pl pts rays)) st_rows &&
-       bool_list_eqb (snd (line_xsections QOps pl pts rays)) st_valid)
+      let mask := map (fun r => exact || away ((1 # 1000000) * vmag r) (xs_denom QOps pl r)) rays in
+      let m := mag (pref pl :: pts ++ rays) in
+      Nat.eqb (length pts) (length rays) &&
+      all2m (row_opt m) mask (map2 (line_xsection QOps pl) pts rays) single &&
+      all2m (row_nan m) mask (fst (line_xsections QOps pl pts rays)) st_rows &&
+      all2m Bool.eqb mask (snd (line_xsections QOps pl pts rays)) st_valid
   | CPoly exact band pl v closed pts idx pts_only =>
+      (* which edges are reported depends on every vertex: a polyline with an undecided vertex is skipped as a whole
+         (such cases carry the kind suffix _undecided in the evidence histogram) *)
       negb (robust_pts exact band pl v) ||
       (let r := intersect_plane QOps pl (MkPolyline v closed) in
        let m := mag (pref pl :: v) in
